@@ -210,6 +210,10 @@ type Options struct {
 	ClockOffset time.Duration
 	Yields      map[string]core.YieldSpec
 	MaxHold     time.Duration
+	// SimLocks: the library's mutexes are the simulation-aware ones for this run (waiters block
+	// on channels), so that yield points inside critical sections can be used. A site name that
+	// ends in ':' in Yields enables every automatic site with that prefix.
+	SimLocks bool
 }
 
 // Run executes one whole-system simulation inside a bubble.
@@ -243,7 +247,8 @@ func Run(t *testing.T, o Options, body func(w *World)) *core.Result {
 			s.EnableYield(site, spec)
 		}
 		verifhook.Yield = s.Yield
-		defer func() { verifhook.Yield = nil }()
+		verifhook.SimLocks = o.SimLocks
+		defer func() { verifhook.Yield = nil; verifhook.SimLocks = false }()
 
 		body(w)
 
